@@ -25,6 +25,8 @@ Inductive draw :=
 | DSeed (s : Z).             (* torch.Generator().manual_seed(s) *)
 
 Definition is_int (r : rat) (z : Z) : bool := fst r =? z * snd r.
+(* a <= b for rationals with positive denominators *)
+Definition rat_leb (a b : rat) : bool := fst a * snd b <=? fst b * snd a.
 
 (* ======================================================================== *)
 (* DINO                                                                     *)
@@ -37,7 +39,8 @@ Record dcfg := {
   dV : Z;                   (* num_views *)
   dMinP : Z;                (* min_num_patches *)
   dPn : Z; dPd : Z;         (* mask_prob = dPn / dPd *)
-  dRn : Z; dRd : Z }.       (* upper mask ratio = dRn / dRd (not used by the model, only by the spec) *)
+  dRn : Z; dRd : Z }.       (* upper mask ratio = dRn / dRd: the exact value of float32(mask_ratio[1]), which is the
+                               last element of torch.linspace(mask_ratio_min, mask_ratio_max, n + 1) *)
 
 Definition dP (c : dcfg) : Z := dH c * dW c.
 
@@ -122,13 +125,16 @@ Fixpoint generate (fuel : nat) (c : dcfg) (m : mask) (num total : Z) (tr : list 
 Definition zero_mask (c : dcfg) : mask :=
   repeat (repeat false (Z.to_nat (dW c))) (Z.to_nat (dH c)).
 
-(* "for i in range(num_masked_samples)": ratio draw, target count, _generate_mask(masks[i]) *)
+(* "for i in range(num_masked_samples)": ratio draw, target count, _generate_mask(masks[i]).
+   The bounds of the ratio draw are probs[i], probs[i + 1] of the float32 linspace; the linspace itself is not
+   modelled, only that the upper bound passed to the generator does not exceed its last element. *)
 Fixpoint gen_masks (n : nat) (c : dcfg) (tr : list draw) : res (list mask * list draw) :=
   match n with
   | O => Ok ([], tr)
   | S n' =>
       match tr with
-      | DUnif _ _ u :: tr1 =>
+      | DUnif _ hi u :: tr1 =>
+          if negb (rat_leb hi (dRn c, dRd c)) then Mismatch else
           let total := fst u * dP c / snd u in
           match generate (Z.to_nat total) c (zero_mask c) 0 total tr1 with
           | Ok (m, _, tr2) =>
